@@ -78,6 +78,9 @@ impl Check for C19 {
             "same_scheme": mode == "session" && g.chance(15), "garbage_push": g.chance(25), "sessions": g.range(2, 4),
             // session mode: the push is adopted while one writer is parked inside the transport and another one is
             // queued behind it
+            // client mode: the server holds the very scheme the client is configured with (nothing to push) and
+            // sends only the unparsable one: afterwards everything must be as if nothing had been pushed
+            "garbage_only": g.chance(30),
             "racing": g.chance(50), "race_payloads": [*g.pick(&[1u64, 50, 300, 1200]), *g.pick(&[1u64, 50, 300, 1200])],
             "payloads": (0..10).map(|_| *g.pick(&[0u64, 1, 50, 300, 1200, 4000])).collect::<Vec<_>>()})
     }
@@ -118,7 +121,7 @@ impl Check for C19 {
         out
     }
     fn rule(&self) -> &'static str {
-        "one case = {built-in default factory touched before or not} x client scheme (built-in default or a seeded scheme) x 1-3 successive server schemes x 2-4 sessions x optional unparsable push; mode session (45%): real client Session against a real server Session with a differing (or, 15%, identical) scheme on plaintext recording pipes — the server must push iff the md5 differs, the packets the client writes after the push must satisfy the C05 acceptor under the pushed scheme; in half of these the push is adopted while one writer is parked inside the transport (write gate) and a second one is queued on the writer lock, whose packet must already follow the pushed scheme; mode client (55%): real Client against a scripted TLS server that records the md5 every new session announces, pushes its current scheme when it differs, switches schemes between sessions and may push garbage — later sessions must announce the pushed scheme, the pushed-to session must hold it, an unparsable push must change nothing; every case is non-trivial; distinct = distinct (plan hash, poll-order fingerprint)"
+        "one case = {built-in default factory touched before or not} x client scheme (built-in default or a seeded scheme) x 1-3 successive server schemes x 2-4 sessions x optional unparsable push; mode session (45%): real client Session against a real server Session with a differing (or, 15%, identical) scheme on plaintext recording pipes — the server must push iff the md5 differs, the packets the client writes after the push must satisfy the C05 acceptor under the pushed scheme; in half of these the push is adopted while one writer is parked inside the transport (write gate) and a second one is queued on the writer lock, whose packet must already follow the pushed scheme; mode client (55%): real Client against a scripted TLS server that records the md5 every new session announces, pushes its current scheme when it differs, switches schemes between sessions and may push garbage — later sessions must announce the pushed scheme, the pushed-to session must hold it, an unparsable push must change nothing (also when it is the only push: the server then holds the client's own scheme and later sessions must still announce it); every case is non-trivial; distinct = distinct (plan hash, poll-order fingerprint)"
     }
     fn real_components(&self) -> Vec<&'static str> {
         vec!["Session::handle_frame (Settings on the server, UpdatePaddingScheme on the client)", "PaddingFactory::default / update_default (process-wide default)", "Client::create_new_session (which scheme new sessions announce and use)", "write_with_padding (session mode)"]
@@ -289,8 +292,11 @@ pub async fn run_client(plan: &Value) -> Outcome {
     let mut out = Outcome::ok();
     let cs = plan["client_scheme"].as_str().unwrap_or("default");
     let client_f: Arc<PaddingFactory> = if cs == "default" { PaddingFactory::default() } else { factory(cs) };
-    let schemes: Vec<String> = plan["server_schemes"].as_array().into_iter().flatten().filter_map(|s| s.as_str().map(|x| x.to_string())).collect();
+    let mut schemes: Vec<String> = plan["server_schemes"].as_array().into_iter().flatten().filter_map(|s| s.as_str().map(|x| x.to_string())).collect();
     let garbage = plan["garbage_push"].as_bool().unwrap_or(false);
+    if garbage && plan["garbage_only"].as_bool().unwrap_or(false) {
+        schemes = vec![String::from_utf8_lossy(client_f.raw_scheme()).to_string()];
+    }
     let state = Arc::new(Mutex::new(Script { announced: vec![], preamble_pad: vec![], current: 0 }));
     // scripted TLS server
     {
@@ -394,7 +400,11 @@ pub async fn run_client(plan: &Value) -> Outcome {
                     break;
                 }
             } else if md5 != client_f.md5() {
-                out.viol("not-adopted", "first-session-announces-unknown-scheme", format!("first session announced {} but the client was configured with {}", md5, client_f.md5()));
+                if idx == 0 {
+                    out.viol("not-adopted", "first-session-announces-unknown-scheme", format!("first session announced {} but the client was configured with {}", md5, client_f.md5()));
+                } else {
+                    out.viol("garbage-push", format!("session-after-unparsable-push-announces-other-scheme:{}", touched), format!("no valid scheme was ever pushed (only an unparsable one); session #{} announced padding-md5 {} although the client is configured with {} (built-in default: {})", idx, md5, client_f.md5(), md5hex(DEFAULT_SCHEME)));
+                }
                 break;
             }
             if pushed {
